@@ -110,6 +110,7 @@ class RemoteServer():
                             logger.info('"None" received')
                             break
 
+                        cli.close()
                         continue
 
                     ctx_id, is_worker = header
@@ -121,6 +122,7 @@ class RemoteServer():
                             ctx = self.contexts.get(ctx_id, None)
                             if ctx is None:
                                 logger.warning('Context {} does not exist!', ctx_id)
+                                cli.close()
                                 continue
 
                             ctx.call(cli)
